@@ -651,6 +651,9 @@ def units_C12(tier, seed):
             U += unit(f'c12_step_{opn[op]}_t{t}', H, f'step_h<{t},{op},{nsl}>()', sites=[1, 2, 4, 90], flavours=fl,
                       diff=(t == 0 and op in (2, 6)), weight=100 if th else 10,
                       cfg={'max_paths': 400000, 'max_traces': 3, 'max_instrs': 400_000_000}, timeout=7200 if th else 3000)
+    # conversion between stacks that share the storage type (source must not be stolen from)
+    U += unit('c12_step_convert_t3', H, 'step_h<3,6,2>()', sites=[1, 2, 4, 90], flavours=('rel', 'san') if th else ('rel',), weight=100 if th else 10,
+              cfg={'max_paths': 400000, 'max_traces': 3, 'max_instrs': 400_000_000}, timeout=7200 if th else 3000)
     for t in (0, 2) if not th else (0, 1, 2):
         ln = 3 if th else 2
         U += unit(f'c12_hist_{ln}_t{t}', H, f'hist_h<{t},{ln},2>()', sites=[11, 12, 14, 90], diff=(t == 0), weight=1000,
